@@ -113,22 +113,30 @@ Fixpoint py_eval (env : list (text * Z)) (e : expr) : res Z :=
    (called only on strings accepted by _r_int_literal, or on '-' + such a string) *)
 Definition rstrip_ul_lower (s : text) : text :=
   rev (skip_while (fun c => N.eqb c 117 || N.eqb c 108) (rev (map lower s))).       (* .lower().rstrip("ul") *)
-Definition starts_0x (s : text) : bool := match s with 48%N :: 120%N :: _ => true | _ => false end.
+Definition starts_0x (s : text) : bool :=
+  match s with a :: b :: _ => N.eqb a 48 && N.eqb b 120 | _ => false end.
 (* int(s, 0): the prefix decides the base; a plain number may not have leading zeros *)
+Definition nonempty_digits (base : Z) (r : text) : option Z :=
+  match r with [] => None | _ => parse_digits base 0 r end.
 Definition py_int0 (s : text) : option Z :=
   match s with
-  | 48%N :: p :: r =>
-      let p := lower p in
-      if N.eqb p 120 then (match r with [] => None | _ => parse_digits 16 0 r end)
-      else if N.eqb p 111 then (match r with [] => None | _ => parse_digits 8 0 r end)
-      else if N.eqb p 98 then (match r with [] => None | _ => parse_digits 2 0 r end)
-      else if forallb (fun c => N.eqb c 48) (p :: r) then Some 0 else None
   | [] => None
-  | _ => parse_digits 10 0 s
+  | z :: rest =>
+      if N.eqb z 48 then
+        match rest with
+        | [] => parse_digits 10 0 s
+        | p :: r =>
+            let p := lower p in
+            if N.eqb p 120 then nonempty_digits 16 r
+            else if N.eqb p 111 then nonempty_digits 8 r
+            else if N.eqb p 98 then nonempty_digits 2 r
+            else if forallb (fun c => N.eqb c 48) (p :: r) then Some 0 else None
+        end
+      else parse_digits 10 0 s
   end.
 Definition add_integer_constant (int_str : text) : res Z :=
   let s := rstrip_ul_lower int_str in
-  let neg := match s with 45%N :: _ => true | _ => false end in
+  let neg := match s with c :: _ => N.eqb c 45 | [] => false end in
   let s := if neg then tl s else s in
   let s := if starts0 s && negb (text_eqb s [48%N]) && negb (starts_0x s) then 48%N :: 111%N :: tl s else s in
   match py_int0 s with
